@@ -970,9 +970,73 @@ def _generator_clauses(ctx: Ctx):
                   f"generate_extras(deprecated={dep}, proposed={prop}) folds to {lines}", flatten.P_RC, None)
 
 
+def _fold_rust_enum(ctx: Ctx):
+    """rust_enum.generate_enum evaluated (E5) on synthetic enumerations with corner values (empty string, non-ASCII, dots,
+    zero, negatives) and documentation that contains lone line terminators: the serde discriminants are the values
+    verbatim, and every emitted line is one physical line (else the rest of a doc line becomes code)."""
+    import re as _re
+    from ..genlint import Index
+    from ..microeval import Interp, Record, Raised
+    rel = "generator/plugins/rust/rust_enum.py"
+    idx = Index(ctx.src, dirs=("generator/plugins/rust",))
+    m = idx.get(rel)
+    it = Interp(m.tree, name=rel)
+    for sib in ("generator/plugins/rust/rust_commons.py", "generator/plugins/rust/rust_lang_utils.py"):
+        if sib in idx.modules:
+            sit = Interp(idx.modules[sib].tree, name=sib)
+            for k_, v_ in sit.globals.items():
+                it.globals.setdefault(k_, v_)
+    ge = it.globals.get("generate_enum")
+    if ge is None:
+        raise AnalysisError(f"{rel}: generate_enum not found")
+    ctx.fn("rust_enum.py:generate_enum")
+    doc = "first line\rSecond = 2,\u2028third {@link Foo}"
+
+    def enum(name, items):
+        return Record("Enum", {"name": name, "documentation": doc, "since": None, "sinceTags": None, "proposed": None,
+                               "deprecated": None, "supportsCustomValues": None, "id_": "id-enum",
+                               "type": Record("Type", {"kind": "base", "name": "string"}),
+                               "values": [Record("EnumItem", {"name": n_, "value": v_, "documentation": doc, "since": None,
+                                                              "sinceTags": None, "proposed": None, "deprecated": None})
+                                          for n_, v_ in items]})
+    cases = {"string": [("Empty", ""), ("Degree", "\u00b0C"), ("Micro", "\u00b5m"), ("Dotted", "source.fixAll"), ("Plain", "plain")],
+             "integer": [("One", 1), ("Zero", 0), ("Negative", -1), ("Big", 2147483647)]}
+    n = 0
+    for label, items in cases.items():
+        captured = []
+        types = Record("TypeData", {"add_type_info": ("host", lambda t_, name_, lines_: captured.append(list(lines_))),
+                                    "get_by_name": ("host", lambda *a, **k: None)})
+        try:
+            r = ge(enum("SomeKind", items), types)
+        except Raised as e:
+            raise AnalysisError(f"{rel}: generate_enum raises {e.exc_name} when folded on a {label} enumeration")
+        lines = [x for ls in captured for x in ls if isinstance(x, str)]
+        if isinstance(r, list):
+            lines += [x for x in r if isinstance(x, str)]
+        text = "\n".join(lines)
+        n += 1
+        if label == "string":
+            got = _re.findall(r'#\[serde\(rename = "([^"]*)"\)\]', text)
+            want = [v for _n, v in items]
+            ctx.check(sorted(got) == sorted(want), "generator-enum-values-verbatim", f"generate_enum:{label}",
+                      f"a string enumeration with the values {want} is emitted with the serde renames {got}", rel, None,
+                      sample={"values": got})
+        else:
+            got = [int(x) for x in _re.findall(r"^\s*\w+ = (-?\d+),", text, _re.M)]
+            want = [v for _n, v in items]
+            ctx.check(sorted(got) == sorted(want), "generator-enum-values-verbatim", f"generate_enum:{label}",
+                      f"an integer enumeration with the values {want} is emitted with the discriminants {got}", rel, None)
+        multi = [x for x in lines if len(x.splitlines()) > 1]
+        ctx.check(not multi, "generator-emits-single-lines", f"generate_enum:{label}",
+                  f"an emitted line contains a line terminator (documentation is not split on every line boundary): {multi[:1]!r}: "
+                  "what follows it is compiled as code", rel, None)
+    ctx.floor("rust enumeration kinds folded", n, 2)
+
+
 _run_c07 = run
 
 
 def run(ctx: Ctx):  # noqa: F811
     _run_c07(ctx)
     _generator_clauses(ctx)
+    _fold_rust_enum(ctx)
